@@ -146,7 +146,7 @@ CLAIMED = {
          "new/reset start with G0=LAT1, G1=VT100; define_charset installs the looked-up table into G0 for mode '(' and G1 for ')' and ignores unknown codes/modes; draw's translation closure maps every code point <= 255 through the "
          "active table and passes larger ones through; and (unit F) in UTF-8 mode SO/SI and `ESC ( x` / `ESC ) x` produce no event while in 8-bit mode they call shift_out/shift_in/define_charset(x, mode).",
     design="5 C20", technique="Kani full-domain table proofs + Verus contracts (Screen side) + unit F (parser side)",
-    note="NOT verified: the lazy_static MAPS table itself (that keys B/0/U/V map to LAT1/VT100/IBMPC/VAX42) is an abstract lookup on the Verus side; VAX42_MAP has no independent reference offline and is not checked."),
+    note="The designator table MAPS (B/0/U/V -> LAT1/VT100/IBMPC/VAX42, nothing else) is verified on its lazy_static initialiser block (unit tables); trusted: a lazy_static deref yields its initialiser's value, &str key model/extensionality. NOT verified: the contents of VAX42_MAP (no independent reference offline)."),
  'C04': dict(
     text="Deductive proof on the verbatim draw() (unit `draw`; callees' contracts imported from unit `screen`, where they are proved) that the final state is related to the initial one by "
          "draw_seq over the G0/G1-translated text (translation closure verified): for every state and every character, first wrap_rel (pending wrap + DECAWM: mark the row, CR, linefeed incl. "
